@@ -320,6 +320,12 @@ func (u *upstream) updateClients(clients map[string]*client) {
 
 func (u *upstream) handleRedirection(req *simpleRequest, resp *RespValue) {
 	err := strings.Split(string(resp.Text), " ")
+	// a redirection is "MOVED|ASK <slot> <host:port>"; anything else is handed
+	// to the client as the error it is.
+	if len(err) < 3 {
+		req.SetResponse(resp)
+		return
+	}
 	hostAddr := err[2]
 	switch strings.ToLower(err[0]) {
 	case MOVED:
@@ -331,6 +337,10 @@ func (u *upstream) handleRedirection(req *simpleRequest, resp *RespValue) {
 		))
 		u.MakeRequestToHost(hostAddr, askingReq)
 		u.MakeRequestToHost(hostAddr, req)
+	default:
+		// the prefix matched under Unicode case folding only (e.g. "a\u017fk")
+		req.SetResponse(resp)
+		return
 	}
 	u.triggerSlotsRefresh()
 }
